@@ -38,6 +38,24 @@ def run(ctx, spec):
                           key=S.case_key(src, text))
         elif il.startswith("ALL OK"):
             raise RuntimeError("no driver verdict for window case " + cid + ": " + ml[:100])
+    # histories of the real containers of libvore/ds (the queue behind `last n`, the VM's stacks) against Model/Ds.lean
+    ds_n = ds_agree = 0
+    for cid, cline in cases.items():
+        parts = cline.split("\t")
+        if parts[0] not in ("qhist", "shist"):
+            continue
+        ds_n += 1
+        il, ml = impl.get(cid, "MISSING"), model.get(cid)
+        if il == ml:
+            ds_agree += 1
+            continue
+        kind = "ds.Queue" if parts[0] == "qhist" else "ds.Stack"
+        ctx.violation("failing-input", kind + " as written differs from its model (proved: the queue keeps the last n pushed, "
+                      "the stack is a list read from the top, Copy is independent)",
+                      dict(case_id=cid, op=parts[0], history=parts[1][:1000], implementation=(il or "")[:400], model=(ml or "")[:400],
+                           how="vharness one " + parts[0] + " raw:<history>"),
+                      key=S.case_key(parts[1].encode(), parts[0].encode()))
+    counters.update(container_histories=ds_n, container_histories_agree=ds_agree)
     counters.update(window_bodies=n, window_clause_checks=clauses, window_failures=fails)
     ctx.coverage["counters"] = counters
     ctx.coverage["evaluations"] = counters["evaluations"] + clauses
@@ -46,7 +64,8 @@ def run(ctx, spec):
 
 PROPS = {"C04": dict(
     lean_modules=["Vore.Props.C04"],
-    theorems=["Vore.C04_window", "Vore.C04_clause_window", "Vore.C04_window_amount", "Vore.C04_window_replace"],
+    theorems=["Vore.C04_window", "Vore.C04_clause_window", "Vore.C04_window_amount", "Vore.C04_window_replace",
+              "Vore.C04_queue_step", "Vore.C04_queue_last_n", "Vore.C04_queue_limit"],
     run=run,
     assumptions=["the clause -> (all, skip, take, last) mapping of parse_amount is checked per case against the real parser's syntax tree"],
     manifest=dict(
@@ -58,7 +77,9 @@ PROPS = {"C04": dict(
              "Correspondence: the implementation is run on the same body under all clauses with s,t,n in 0..len(A)+2 and "
              "Spec.select is evaluated by the Lean driver on the implementation's own `all` result; the amount tuple "
              "the real parser built is compared with Clause.amount; programs with amounts also go through the "
-             "model-vs-implementation stream.",
+             "model-vs-implementation stream. The queue behind `last n` (libvore/ds/queue.go) and the VM's stacks (stack.go) "
+             "are modelled as written (Model/Ds.lean) and proved to be the list reading the scan model uses "
+             "(C04_queue_step/_last_n/_limit); random histories of the real containers are compared with that model.",
         note="Trusted: Lean kernel; scan-loop model fidelity tested by correspondence; hypothesis of the theorem: the "
              "`all` run itself returns (termination/no panic are C09/C10).",
         technique="Lean 4 induction over the scan loop + executable selection on implementation output + differential correspondence"),
